@@ -34,6 +34,23 @@ REGISTRY = dict(
     technique="machine-checked proof in Coq (loop invariants by induction, rational arithmetic) + regenerated-fragment interface lemmas + counting correspondence on real learn() calls",
 )
 
+COV_FUNCS = ['stable_baselines3.common.base_class:BaseAlgorithm._update_current_progress_remaining',
+             'stable_baselines3.common.base_class:BaseAlgorithm._setup_learn',
+             'stable_baselines3.common.base_class:BaseAlgorithm._update_learning_rate',
+             'stable_baselines3.common.on_policy_algorithm:OnPolicyAlgorithm.learn',
+             'stable_baselines3.common.on_policy_algorithm:OnPolicyAlgorithm.collect_rollouts',
+             'stable_baselines3.common.off_policy_algorithm:OffPolicyAlgorithm.learn',
+             'stable_baselines3.common.off_policy_algorithm:OffPolicyAlgorithm.collect_rollouts',
+             'stable_baselines3.common.off_policy_algorithm:OffPolicyAlgorithm._setup_learn',
+             'stable_baselines3.common.off_policy_algorithm:OffPolicyAlgorithm._convert_train_freq',
+             'stable_baselines3.common.utils:should_collect_more_steps',
+             'stable_baselines3.common.utils:get_linear_fn',
+             'stable_baselines3.common.utils:get_schedule_fn',
+             'stable_baselines3.common.utils:update_learning_rate',
+             'stable_baselines3.ppo.ppo:PPO.train',
+             'stable_baselines3.a2c.a2c:A2C.train',
+             'stable_baselines3.dqn.dqn:DQN._on_step']
+
 HEADER = """From Coq Require Import List ZArith QArith Bool.
 From SB3V Require Import Lib.QUtil Model.LearnLoop Gen.Frag_learnloop.
 Import ListNotations.
@@ -429,6 +446,9 @@ def run_cases(chk, runs, name="C12"):
 def main():
     chk = Check("C12", groups=["learnloop"])
     chk.build_props()
+    from harness import linecov
+
+    _cov = linecov.maybe_start(COV_FUNCS)
     n_r = 70 if chk.tier == "quick" else 1200
     corpus = load_corpus()
     runs = corpus + [gen_run(chk.rng, i) for i in range(n_r)]
@@ -477,6 +497,7 @@ def main():
         "the learning rate in force is read from optimizer.param_groups at every optimizer.step of the policy / critic optimizer",
         "under target_kl only the upper bound n_epochs * ceil(N / batch) on PPO's updates is checked; an episodic train_freq is exercised with n_envs = 1 and a fixed episode length",
     ]
+    linecov.finish(_cov, chk)
     return chk.finish()
 
 
